@@ -351,6 +351,11 @@ impl<'w> Ctx<'w> {
                 let mut eff = false;
                 for fv in &st.fields {
                     let fname = match &fv.member { Member::Named(i) => i.to_string(), _ => return Err("tuple struct literal".into()) };
+                    if self.w.partial_structs.contains(&name) && !fields.iter().any(|(n, _)| *n == fname) {
+                        // a field outside `only=`: invisible to every translated function (its initialiser must be a plain path)
+                        if !matches!(strip_ref(&fv.expr), Expr::Path(_) | Expr::Field(_)) { return Err("initialiser of an untranslated field".into()); }
+                        continue;
+                    }
                     let fty = fields.iter().find(|(n, _)| *n == fname).ok_or("unknown field")?.1.clone();
                     let v = self.expr(&fv.expr)?;
                     if self.is_int(&fty) { self.unify(&v.ty, &fty)?; }
@@ -581,6 +586,8 @@ impl<'w> Ctx<'w> {
                 Ok(E { s: format!("({}, {})", a.s, b.s), ty: Ty::Tuple(vec![a.ty, b.ty]), eff: a.eff || b.eff })
             }
             "Vec::new" => Ok(e("[]", Ty::Any)),
+            "BinaryHeap::new" => Ok(e("[]", Ty::Heap(Box::new(Ty::Any)))),
+            "Error::Merge" => Ok(e("RErr.merge", Ty::Named("RErr".into()))),
             "Vec::with_capacity" => {
                 // capacity is not observable; the argument is still evaluated (it may overflow)
                 let a = self.expr(&c.args[0])?;
@@ -837,6 +844,46 @@ impl<'w> Ctx<'w> {
                     "len" => Ok(E { s: format!("({} - {})", hi, lo), ty: Ty::U(64), eff: false }),
                     o => Err(format!("`{}` on a `split_last_mut` head", o)),
                 };
+            }
+        }
+        // the user's merge function: `self.merge_function.merge(key, &values)`
+        if name == "merge" && args.len() == 2 && m.receiver.to_token_stream().to_string().replace(' ', "") == "self.merge_function" {
+            let k = self.expr(args[0])?;
+            let v = self.expr(args[1])?;
+            if self.resolve(&k.ty) != Ty::Bytes || self.resolve(&v.ty) != Ty::List(Box::new(Ty::Bytes)) || k.eff || v.eff { return Err("merge call argument types".into()); }
+            self.used_merge = true;
+            return Ok(E { s: format!("(merge {} {})", paren(&k.s), paren(&v.s)), ty: Ty::Named("MergeRes".into()), eff: false });
+        }
+        // `BinaryHeap` by its contract
+        if let Some(p) = self.place_of(&m.receiver) {
+            if let Ty::Heap(et) = self.resolve(&p.ty) {
+                let cur = self.place_read(&p);
+                let cmp = |this: &mut Self| -> R<String> {
+                    let tn = match &*et { Ty::Named(n) => n.clone(), o => return Err(format!("heap of {:?}", o)) };
+                    let sig = this.w.fns.get(&format!("{}.cmp", tn)).cloned().ok_or_else(|| format!("heap order `{}::cmp` is not a translated function", tn))?;
+                    if sig.uses_step { this.used_step = true; Ok(format!("(Grenad.Gen.{} step)", sig.lean)) } else { Ok(format!("Grenad.Gen.{}", sig.lean)) }
+                };
+                match name.as_str() {
+                    "pop" => {
+                        let c = cmp(self)?;
+                        let (r, h) = (self.fresh("r"), self.fresh("h"));
+                        self.pre.push(format!("let ({}, {}) ← heapPopM {} {}", r, h, c, cur));
+                        let w = self.place_write(&p, &h);
+                        self.pre.push(w);
+                        return Ok(E { s: r, ty: Ty::Opt(et), eff: false });
+                    }
+                    "peek" => {
+                        let c = cmp(self)?;
+                        return Ok(E { s: format!("(← heapPeekM {} {})", c, cur), ty: Ty::Opt(et), eff: true });
+                    }
+                    "push" => {
+                        let a = self.expr(args[0])?;
+                        let w = self.place_write(&p, &format!("({} ++ [{}])", cur, a.s));
+                        self.pre.push(w);
+                        return Ok(e("()", Ty::Unit));
+                    }
+                    o => return Err(format!("`{}` on a BinaryHeap", o)),
+                }
             }
         }
         // user methods on self / translated structs
@@ -1108,6 +1155,8 @@ impl<'w> Ctx<'w> {
                 let body = r?;
                 Ok(E { s: body.s, ty: Ty::Res(Box::new(body.ty)), eff: body.eff })
             }
+            // the error type changes, the value does not: errors travel in the monad
+            (Ty::Res(_), "map_err") if matches!(args[0], Expr::Path(_)) => Ok(recv),
             (Ty::Opt(t), "filter") => {
                 match args[0] {
                     Expr::Closure(c) if c.inputs.len() == 1 => {
